@@ -94,8 +94,10 @@ compute_enum_storage_type (GIrNodeEnum *enum_node)
 	width = sizeof(Enum7);
       else if (min_value >= G_MINSHORT && max_value <= G_MAXSHORT)
 	width = sizeof(Enum8);
-      else
+      else if (max_value <= G_MAXINT)
 	width = sizeof(Enum9);
+      else
+	width = sizeof(gint64);
     }
   else
     {
